@@ -31,6 +31,7 @@ import (
 	"log/syslog"
 	"os"
 	"runtime"
+	"sort"
 	"strings"
 
 	"github.com/danos/utils/tsort"
@@ -629,7 +630,7 @@ func (c *Compiler) ExpandModules() (err error) {
 	for _, module := range c.modules {
 		r := module.GetModule()
 		c.VerifyModuleIncludes(r, module.GetSubmodules())
-		for _, s := range module.GetSubmodules() {
+		for _, s := range submodulesIncludedFirst(module.GetSubmodules()) {
 			c.ProcessSubmoduleIncludes(s, module.GetSubmodules())
 		}
 		c.ProcessModuleIncludes(r, module.GetSubmodules())
@@ -736,6 +737,37 @@ func (c *Compiler) VerifyModuleIncludes(m parse.Node, submodules map[string]pars
 	if err != nil {
 		c.error(m, err)
 	}
+}
+
+// submodulesIncludedFirst lists the submodules so that each one comes after
+// the submodules it includes: what a submodule takes over from its includes
+// (their imports, which they may have taken over themselves) must not depend
+// on the iteration order of the map. The include graph is acyclic here, see
+// VerifyModuleIncludes.
+func submodulesIncludedFirst(submodules map[string]parse.Node) []parse.Node {
+	names := make([]string, 0, len(submodules))
+	for name := range submodules {
+		names = append(names, name)
+	}
+	sort.Strings(names)
+	out := make([]parse.Node, 0, len(submodules))
+	done := make(map[string]bool)
+	var visit func(name string)
+	visit = func(name string) {
+		s, ok := submodules[name]
+		if !ok || done[name] {
+			return
+		}
+		done[name] = true
+		for _, i := range s.ChildrenByType(parse.NodeInclude) {
+			visit(i.Name())
+		}
+		out = append(out, s)
+	}
+	for _, name := range names {
+		visit(name)
+	}
+	return out
 }
 
 func (c *Compiler) ProcessSubmoduleIncludes(m parse.Node, submodules map[string]parse.Node) {
